@@ -7,6 +7,8 @@ CONSTANTS
   AllowRelate = TRUE
   AllowQueryX = FALSE
   AllowSweep = TRUE
+  CopyModes = {}
+  UnregisteredModes = {}
   Hist = TRUE
   PopIdOfNone = FALSE
   StaleRelationIndex = FALSE
